@@ -51,6 +51,8 @@ def concrete_density(d, kind="mixed"):
             A[i, j] = ((i + 2 * j + 1) % 5) / 4.0 + 1j * (((2 * i + j) % 3) - 1) / 2.0
     A[0, 0] += 1.0
     R = A @ A.conj().T
+    if kind == "pure":
+        R = np.outer(A[:, 0], A[:, 0].conj())
     if kind == "rank2":
         w, U = np.linalg.eigh(R)
         R = w[-1] * np.outer(U[:, -1], U[:, -1].conj()) + w[-2] * np.outer(U[:, -2], U[:, -2].conj())
@@ -129,10 +131,10 @@ class World:
             d = int(o.dimensions)
             if lvl == 1:
                 _expect_shape(o.state, (d, 1), f"own block {b['sub']}")
-                o.state = B.vector(f"b{i}", d)
+                o.state = (B.operator(f"b{i}", d, 1) if b.get("free") else B.vector(f"b{i}", d))
             else:
                 _expect_shape(o.state, (d, d), f"own block {b['sub']}")
-                o.state = B.density(f"b{i}", d, b.get("param", getattr(B, "default_param", "herm")))
+                o.state = (B.operator(f"b{i}", d, d) if b.get("free") else B.density(f"b{i}", d, b.get("param", getattr(B, "default_param", "herm"))))
         elif b["kind"] == "env":
             e = self.envs[b["env"]]
             e.combine()
@@ -143,13 +145,13 @@ class World:
             d = int(e.fock.dimensions) * 2
             if lvl == 1:
                 _expect_shape(e.state, (d, 1), f"envelope block {b['env']}")
-                e.state = B.vector(f"b{i}", d)
+                e.state = (B.operator(f"b{i}", d, 1) if b.get("free") else B.vector(f"b{i}", d))
             else:
                 _expect_shape(e.state, (d, d), f"envelope block {b['env']}")
                 if b.get("concrete"):
                     e.state = B.jnp.array(concrete_density(d, b["concrete"]))
                 else:
-                    e.state = B.density(f"b{i}", d, b.get("param", getattr(B, "default_param", "herm")))
+                    e.state = (B.operator(f"b{i}", d, d) if b.get("free") else B.density(f"b{i}", d, b.get("param", getattr(B, "default_param", "herm"))))
         elif b["kind"] == "ps":
             ce = self.ces[b.get("ce", 0)]
             members = [self.objs[m] for m in b["members"]]
@@ -167,10 +169,10 @@ class World:
                 if b.get("concrete"):
                     ps.state = B.jnp.array(concrete_density(d, b["concrete"]))
                 else:
-                    ps.state = B.density(f"b{i}", d, b.get("param", getattr(B, "default_param", "herm")))
+                    ps.state = (B.operator(f"b{i}", d, d) if b.get("free") else B.density(f"b{i}", d, b.get("param", getattr(B, "default_param", "herm"))))
             else:
                 _expect_shape(ps.state, (d, 1), f"product state {b['members']}")
-                ps.state = B.vector(f"b{i}", d)
+                ps.state = (B.operator(f"b{i}", d, 1) if b.get("free") else B.vector(f"b{i}", d))
         else:
             raise ValueError(b["kind"])
 
